@@ -6,14 +6,14 @@ import vlib
 RE_REJ = re.compile(r'<<\s*"REJECT",\s*(\d+),\s*"(C\d+):([^"]*)",\s*(\d+)\s*>>')
 
 PROFILES_FOR = {
-    "C04": ["wait", "mix", "res", "end"],
-    "C05": ["res", "mix", "end"],
-    "C06": ["res", "pool", "buf", "queue", "cond"],
-    "C07": ["pool", "mix", "rec"],
-    "C08": ["res", "pool", "buf", "queue", "mix", "end"],
+    "C04": ["contend", "wait", "mix", "res", "end"],
+    "C05": ["contend", "res", "mix", "end"],
+    "C06": ["contend", "res", "pool", "buf", "queue", "cond"],
+    "C07": ["contend", "pool", "mix", "rec"],
+    "C08": ["contend", "res", "pool", "buf", "queue", "mix", "end"],
     "C09": ["end", "wait", "mix"],
-    "C11": ["buf", "mix", "rec"],
-    "C12": ["queue", "mix", "rec"],
+    "C11": ["contend", "buf", "mix", "rec"],
+    "C12": ["contend", "queue", "mix", "rec"],
     "C13": ["cond", "mix"],
     "C14": ["rec"],
 }
